@@ -14,7 +14,6 @@ package main
 
 import (
 	"bufio"
-	"bytes"
 	"context"
 	"encoding/json"
 	"errors"
@@ -28,12 +27,12 @@ import (
 	"strings"
 	"sync"
 	"sync/atomic"
-	"testing/iotest"
 	"time"
 
 	"github.com/paulmach/osm"
 	"github.com/paulmach/osm/osmpbf"
 	"verifharness/internal/pbfmini"
+	"verifharness/internal/rdr"
 	"verifharness/internal/sched"
 	"verifharness/internal/vio"
 )
@@ -95,7 +94,7 @@ func runCase(c Case) M {
 	defer func() { osmpbf.VerifHook = nil }()
 	ctx, cancel := context.WithCancel(context.Background())
 	defer cancel()
-	s := osmpbf.New(ctx, bytes.NewReader(fi.Data), c.Cfg.N)
+	s := osmpbf.New(ctx, readerFor(fi.Data, c.Variant), c.Cfg.N)
 	closed := false
 	sc.CtxDone = func() bool { return ctx.Err() != nil || closed || sc.Exited("s") }
 
@@ -440,7 +439,7 @@ func runJitter(c Case) M {
 	}
 	ctx, cancel := context.WithCancel(context.Background())
 	defer cancel()
-	cr := &countingReader{r: bytes.NewReader(fi.Data)}
+	cr := &countingReader{r: readerFor(fi.Data, c.Variant)}
 	s := osmpbf.New(ctx, cr, c.Cfg.N)
 	var seq int64
 	var mu sync.Mutex
@@ -633,7 +632,7 @@ func runPlain(c Case) M {
 				// a new scanner on the same data at the reported offset: its first block is a data block
 				fi2 := fi
 				H2 := []M{}
-				s2 := osmpbf.New(context.Background(), bytes.NewReader(fi.Data[off:]), c.Cfg.N)
+				s2 := osmpbf.New(context.Background(), readerFor(fi.Data[off:], c.Variant+len(seen)), c.Cfg.N)
 				if (len(seen)+c.Variant)%2 == 0 {
 					s2.Header() // asking a resumed scanner for its (absent) header must not disturb the scan
 				}
@@ -670,40 +669,8 @@ func runPlain(c Case) M {
 	}
 }
 
-// chunkReader hands the data out in short reads (1..7 bytes, then larger), as sockets, pipes and decompressors do.
-type chunkReader struct {
-	data []byte
-	pos  int
-	k    int
-}
-
-func (c *chunkReader) Read(p []byte) (int, error) {
-	if c.pos >= len(c.data) {
-		return 0, io.EOF
-	}
-	c.k++
-	n := []int{1, 3, 2, 7, 1, 64, 5, 4096, 1, 2}[c.k%10]
-	if n > len(p) {
-		n = len(p)
-	}
-	if n > len(c.data)-c.pos {
-		n = len(c.data) - c.pos
-	}
-	copy(p, c.data[c.pos:c.pos+n])
-	c.pos += n
-	return n, nil
-}
-
-// readerFor: the same bytes behind different io.Reader behaviours, by layout variant
-func readerFor(data []byte, variant int) io.Reader {
-	switch variant % 3 {
-	case 1:
-		return &chunkReader{data: data}
-	case 2:
-		return iotest.OneByteReader(bytes.NewReader(data))
-	}
-	return bytes.NewReader(data)
-}
+// readerFor: the same bytes behind different io.Reader behaviours (internal/rdr), by layout variant
+func readerFor(data []byte, variant int) io.Reader { return rdr.For(data, variant) }
 
 // kind "big": real-size blocks (thousands of elements).  The file is scanned with every decoder count of the case; per count the
 // recorder reports how many objects came out, an order-sensitive digest of (id, lat, lon, version) and the ids at a few probe
